@@ -277,6 +277,11 @@ func CheckC02(s *Session, st *StepObs) []Finding {
 		}
 		return dedup(out)
 	}
+	if st.WriteFailed {
+		// The store refused the write (injected fault): nothing is promised
+		// about adoption; safety was judged above.
+		return dedup(out)
+	}
 	// The message must be internally linked to be "fully valid".
 	for i := 1; i < len(st.Hdrs); i++ {
 		if st.Hdrs[i].PrevBlock != st.Hdrs[i-1].BlockHash() {
